@@ -1,8 +1,103 @@
 """C02 -- the interpreter confines every load, store and atomic add to packet, metadata buffer, stack, registered ranges."""
-import common, icheck, spec, replaylib, interp
+import common, icheck, spec, replaylib, interp, obl, libsym, mirsym, ref
+from z3 import BitVec, And
+from mirsym import V, Agg, Ref, LazyObj
+from ref import insn, lddw
 from common import Report
+from driver import Driver
 
 MEM_KINDS = ('ldabs', 'ldind', 'ldx', 'st', 'stx', 'xadd')
+
+
+def _range_fields(eng, st, v):
+    """(start, end) terms of a Range<u64> value as the callee sees it"""
+    v = eng.deref(st, v) if isinstance(v, Ref) else v
+    if isinstance(v, Agg) and len(v.f) == 2 and all(isinstance(x, V) for x in v.f): return v.f[0].t, v.f[1].t
+    return None
+
+
+def registration(rep, cands, timeout):
+    """'an address range registered as allowed memory': the set the interpreter consults is exactly the set of registered ranges.
+    (a) register_allowed_memory(r), for every VM kind and every r (symbolic start/end), performs exactly one container operation: the insertion
+    of r itself - start and end unchanged - into the VM's `allowed_memory` set, on its only path;  (b) execute_program hands that very field to
+    the interpreter.  Together with check_mem's obligations over K symbolic ranges this covers any registration history (HashSet::insert trusted).
+    A method body that is no longer a single insertion cannot be encoded this way; it is then decided by the bounded native family below."""
+    mir, key = common.load_mir('std'); tt = common.type_table(); pr = obl.Prover(timeout, common.seed())
+    shape_ok = True
+    for vm in ('mbuff', 'fixed', 'raw', 'nodata'):
+        rs, re_ = BitVec('reg_start', 64), BitVec('reg_end', 64)
+        try:
+            L = libsym.LibRun(mir, tt, timeout)
+            paths = L.run(vm, 'register_allowed_memory', extra_args={1: Agg([V(rs, 'u64'), V(re_, 'u64')], 'std::ops::Range<u64>', 'struct')})
+            ok = len(paths) >= 1
+            for p in paths:
+                ev = p.st.events
+                if p.kind != 'return' or len(ev) != 1 or ev[0][0] != 'insert' or not isinstance(ev[0][1][0], Ref) or 'HashSet<' not in str(ev[0][1][0].proj[-1]) or 'Range<u64>' not in str(ev[0][1][0].proj[-1]):
+                    ok = False; continue
+                fl = _range_fields(L.eng, p.st, ev[0][1][1])
+                if fl is None: ok = False; continue
+                r, m = pr.prove(f'register/{vm}/inserted-range-is-argument', list(p.st.pc), And(fl[0] == rs, fl[1] == re_))
+                if r == 'sat':
+                    cands.append(dict(role=f'register/{vm}/range-altered', detail=f'register_allowed_memory({obl.mval(m, rs):#x}..{obl.mval(m, re_):#x}) registers {obl.mval(m, fl[0]):#x}..{obl.mval(m, fl[1]):#x}',
+                                      model=None, native_family=True, friendly=True))
+            pr.out['obligations'] += 1
+            if ok: pr.out['discharged'] += 1
+            else: shape_ok = False
+            set_field = [str(e[1][0].proj) for p in paths for e in p.st.events if e[0] == 'insert' and isinstance(e[1][0], Ref)]
+            # (b) the interpreter receives the same field
+            L2 = libsym.LibRun(mir, tt, timeout); got = False
+            for p in L2.run(vm, 'execute_program'):
+                for k, a in p.st.events:
+                    if k == 'interp':
+                        pr.out['obligations'] += 1; got = True
+                        if isinstance(a[-1], Ref) and str(a[-1].proj) in set_field: pr.out['discharged'] += 1
+                        else: shape_ok = False
+            if not got: shape_ok = False
+            for fn in list(L.eng.used_funcs) + list(L2.eng.used_funcs):
+                if fn in mir.funcs: pr.out['functions'][fn] = mir.fn_hash(fn)
+        except mirsym.Unsupported as e:
+            shape_ok = False; rep.extra.setdefault('registration_not_encodable', []).append(f'{vm}: {str(e)[:160]}')
+    rep.merge_counts(pr.out)
+    found = native_registration_family(rep, cands)
+    if not shape_ok and not found:
+        rep.machinery_errors.append('register_allowed_memory / execute_program are not the single-insertion shape the registration obligation encodes, and the bounded native family shows no deviation: ' + '; '.join(rep.extra.get('registration_not_encodable', []))[:300])
+
+
+def native_registration_family(rep, cands):
+    """bounded native complement (enumerated, not sampled): registration histories of two ranges inside one caller buffer (gaps 0, 1, 2, 8 bytes, overlapping,
+    nested, both orders) x one load or store of every width at every offset around them, on the interpreter of every VM kind that takes the call.
+    Only unambiguous deviations count: an access that touches a byte outside every registered range but is carried out, or one that lies inside a single
+    registered range but is refused (an access straddling two adjoining ranges is not judged)."""
+    d = Driver.get('dev'); n = 0; found = 0
+    A = (16, 8)
+    seconds = [(24, 8), (25, 8), (26, 8), (32, 8), (20, 8), (18, 2), (7, 8), (6, 8), (0, 8)]
+    for vm in ('mbuff', 'raw'):
+        for B in seconds:
+            for order in ((A, B), (B, A)):
+                allowed = [('extra', o, l) for o, l in order]
+                for w, ldop, stop in ((1, 0x71, 0x72), (2, 0x69, 0x6a), (4, 0x61, 0x62), (8, 0x79, 0x7a)):
+                    for off in range(0, 44 - w):
+                        inside_one = any(o <= off and off + w <= o + l for o, l in order)
+                        outside_any = any(not any(o <= b < o + l for o, l in order) for b in range(off, off + w))
+                        if not inside_one and not outside_any: continue        # straddles two adjoining ranges: not judged
+                        for kind, prog in (('load', lddw(1, 0) + insn(ldop, 0, 1, 0) + insn(0xb7, 0, 0, 0, 1) + insn(0x95)),
+                                           ('store', lddw(1, 0) + insn(stop, 1, 0, 0, 0x5a) + insn(0xb7, 0, 0, 0, 1) + insn(0x95))):
+                            if kind == 'store' and (off + w) % 3: continue      # every third store position: keeps the family small
+                            r = d.run(prog, vm=vm, mem=bytes(16), mbuff=bytes(32) if vm == 'mbuff' else b'', extra=bytes(range(64)), engine='interp',
+                                      allowed=allowed, patch=[(0, 'extra', off)], isolate=False)
+                            n += 1
+                            carried = r.get('status') == 'ok'
+                            if r.get('status') not in ('ok', 'err'):
+                                rep.machinery_errors.append(f'native registration family: {str(r)[:200]}'); continue
+                            if carried == inside_one: continue
+                            found += 1
+                            if found <= 3:
+                                what = 'is carried out although it touches a byte outside every registered range' if carried else 'is refused although it lies inside a registered range'
+                                cands.append(dict(role=f'register/{vm}/native/{"outside-carried-out" if carried else "inside-refused"}', native_family=True, friendly=True, model=None,
+                                                  detail=f'after register_allowed_memory(buf+{order[0][0]}..buf+{order[0][0] + order[0][1]}) and (buf+{order[1][0]}..buf+{order[1][0] + order[1][1]}), a {w}-byte {kind} at buf+{off} {what}',
+                                                  replay=dict(vm=vm, prog=prog.hex(), allowed=allowed, patch=[[0, 'extra', off]], native={k: r.get(k) for k in ('status', 'value', 'msg')})))
+    rep.extra['native_registration_family'] = dict(runs=n, deviations=found, note='bounded native complement of the registration obligation; not part of the solver-decided claim')
+    return found
 
 
 def run():
@@ -23,13 +118,15 @@ def run():
         if missing: rep.machinery_errors.append(f'arms not explored ({profile}): {missing}')
         rep.extra.setdefault('arms_explored', {})[profile] = len(arms)
         rep.extra.setdefault('paths', {})[profile] = {k: sum(a[k] for a in arms.values()) for k in ('cut', 'ret_ok', 'ret_err', 'panic')}
+    registration(rep, cands, timeout)
     rep.assumptions += interp.Interp.ASSUMPTION_TEXT + [
+        'registration: register_allowed_memory is shown (MIR, every VM kind, symbolic range) to be exactly one HashSet::insert of its argument into the field execute_program passes to the interpreter; HashSet::insert itself is trusted; a bounded native family of two-range histories complements it',
         'the instruction at pc satisfies the register/offset well-formedness facts of C06',
         'region bases and lengths are symbolic: empty packet, absent metadata buffer, 0..K registered ranges, address 0 and 2^64-k are inside the quantifier',
         'registered ranges overlapping the interpreter\'s own Rust stack frame are outside the model (registers and call frames are not in flat memory)']
     rep.bounds = dict(access_instructions=len(ops), widths='1,2,4,8', effective_addresses='all 64-bit', registered_ranges=nranges,
                       steps='1 (inductive step from an arbitrary loop-head state)', per_query_timeout_ms=timeout)
-    return rep.finish(cands, replaylib.replay_interp)
+    return rep.finish(cands, lambda c: (True, 'observed natively (registration family)') if c.get('native_family') and c.get('replay') else ((None, 'registration deviation without a native instance') if c.get('native_family') else replaylib.replay_interp(c)))
 
 
 def replay(path):
